@@ -45,6 +45,10 @@ impl RunModel {
                         self.ill_formed = true;
                     }
                     Ev::Csi { params, inter, ignore, byte: b'm' } if inter.is_empty() && !ignore => {
+                        // codes the extractor properties do not list (blink, 22-29, 59) have no defined expectation
+                        if Sgr::uses_unlisted_codes(&params) {
+                            self.ill_formed = true;
+                        }
                         if !self.sgr.apply(&params) {
                             self.ill_formed = true;
                         }
